@@ -53,15 +53,17 @@ SetOf(sq) == {sq[i] : i \in 1..Len(sq)}
 Before(i) == IF i = 1 THEN SetOf(c.table0) ELSE SetOf(c.steps[i - 1].table)
 After(i)  == SetOf(c.steps[i].table)
 Steps == 1..Len(c.steps)
-NameGiven(i) == NameOfArg(c.ops[i].arg)
+\* ALIAS[:] read here without CliAliasFile!NameOfArg / EntryIdx, so that the clauses do not lean on the operators they judge
+NameGiven(i) == LET a == c.ops[i].arg IN IF Len(a) > 0 /\ a[Len(a)] = ":" THEN SubSeq(a, 1, Len(a) - 1) ELSE a
+EntryLines == {i \in 1..Len(c.F.lines) : c.F.lines[i].k = "entry"}
 Changing(i) == c.ops[i].op \in {"add", "create"}
 
 \* the table is a function of the entry lines: comments, commented-out entries, blank lines and the spaces around a cap
 \* contribute nothing; root_dir.cap gives tahoe: exactly while no line does
 AF_Parse ==
-  LET named == {c.F.lines[i].name : i \in EntryIdx(c.F)} IN
+  LET named == {c.F.lines[i].name : i \in EntryLines} IN
   /\ \A r \in SetOf(c.table0) : r.name \in named \/ (r.name = DefaultName /\ r.cap = c.F.root)
-  /\ \A i \in EntryIdx(c.F) : [name |-> c.F.lines[i].name, cap |-> c.F.lines[i].cap] \in SetOf(c.table0)
+  /\ \A i \in EntryLines : [name |-> c.F.lines[i].name, cap |-> c.F.lines[i].cap] \in SetOf(c.table0)
   /\ (c.F.root \notin {"absent", "empty"} /\ DefaultName \notin named) => [name |-> DefaultName, cap |-> c.F.root] \in SetOf(c.table0)
   /\ Cardinality({r.name : r \in SetOf(c.table0)}) = Cardinality(SetOf(c.table0))
 \* "Once you've added an alias, you can use that alias as an argument to commands": after a successful add / create the
@@ -81,6 +83,11 @@ AF_Refused ==
   \A i \in Steps : Changing(i) =>
      /\ (Has(NameGiven(i), ":") \/ Has(NameGiven(i), " ")) => c.steps[i].rc = "nonzero"
      /\ (\E r \in Before(i) : r.name = NameGiven(i) /\ ~(r.name = DefaultName /\ r.cap = c.F.root)) => c.steps[i].rc = "nonzero"
+\* ... and nothing else is refused: a new name without colon, space or slash - given with or without the trailing colon - is
+\* accepted (create-alias: if the node made the directory)
+AF_Accepted ==
+  \A i \in Steps : (Changing(i) /\ ~Has(NameGiven(i), ":") /\ ~Has(NameGiven(i), " ") /\ ~Has(NameGiven(i), "/")
+                    /\ ~(\E r \in Before(i) : r.name = NameGiven(i)) /\ (c.ops[i].op = "add" \/ c.ops[i].ok)) => c.steps[i].rc = "zero"
 \* create-alias = mkdir + add-alias: one POST exactly when the name is acceptable, the alias exactly when it succeeded
 AF_Create ==
   \A i \in Steps : c.ops[i].op = "create" =>
